@@ -89,6 +89,10 @@ class GroupBy:
             (source_columns.index(target) for target in self._columns),
         )
 
+        # the group keys are those of the rows of this pass, not of an earlier pass over
+        # rows the frame may no longer hold
+        self._group_keys = {}
+
         for record in self._dictset:
             # Create a unique hash for each group
             group_key = tuple(record[col] for col in group_column_indicies)
